@@ -17,7 +17,7 @@ from gemdat.path import Pathway, free_energy_graph, optimal_path, optimal_percol
 from gemdat.volume import FreeEnergyVolume  # noqa: E402
 
 PID = 'C10'
-MODULES = ['GProofs.C10', 'GProofs.C10Peak']
+MODULES = ['GProofs.C10', 'GProofs.C10Peak', 'GProofs.C10Gen']
 METHODS = ['dijkstra', 'bellman-ford', 'minmax-energy', 'dijkstra-exp', 'simple']
 BIGF = 1.7976931348623157e308
 
@@ -330,7 +330,7 @@ SPEC = PropertySpec(
     run=run,
     replay=replay,
     classify=classify,
-    gen=translate.generate,
+    gen=translate.gen_for('Moves', 'FormulasC10'),
     rule=('random free-energy grids up to 5x4x6 (thorough 6x6x6) with unequal axes, dyadic energies k/8 in [0,6], 12% blocked voxels '
           '(largest double), occasional negative voxels, thresholds {3,4.5,7}, both neighbourhoods, random admissible start/stop (5% '
           'blocked stop), all five methods; percolation on grids up to 4x3x5 (5x5x5) with 1-3 peaks and all seven direction sets. On the '
